@@ -154,6 +154,19 @@ func (c *FnCtx) instrMods(fr *Frame, in ssa.Instruction, ms *loopModSet, depth i
 		// spawned goroutine: not followed (verified on its own)
 	case *ssa.Send, *ssa.Select:
 		c.addChanHeaps(ms)
+	case *ssa.Next:
+		// the iterator advances: its ghost state (position / visited set) changes
+		c.addIterHeaps(ms, x)
+	case *ssa.Range:
+		ms.heaps["alloc"] = SInt
+		ms.heaps["iter$pos"] = SArr(SInt, SInt)
+		if m, ok := x.X.Type().Underlying().(*types.Map); ok {
+			ks := c.scalarSort(m.Key())
+			if ks == "" {
+				ks = SInt
+			}
+			ms.heaps["iter$visited$"+string(ks)] = SArr(SInt, SArr(ks, SBool))
+		}
 	case *ssa.UnOp:
 		if x.Op == token.ARROW {
 			c.addChanHeaps(ms)
@@ -468,4 +481,22 @@ func (c *FnCtx) effectsMods(ct *FuncContract, callee *ssa.Function, cc *ssa.Call
 			ms.all = true
 		}
 	}
+}
+
+func (c *FnCtx) addIterHeaps(ms *loopModSet, x *ssa.Next) {
+	if x.IsString {
+		ms.heaps["iter$pos"] = SArr(SInt, SInt)
+		return
+	}
+	if rng, ok := x.Iter.(*ssa.Range); ok {
+		if m, ok := rng.X.Type().Underlying().(*types.Map); ok {
+			ks := c.scalarSort(m.Key())
+			if ks == "" {
+				ks = SInt
+			}
+			ms.heaps["iter$visited$"+string(ks)] = SArr(SInt, SArr(ks, SBool))
+			return
+		}
+	}
+	ms.heaps["iter$pos"] = SArr(SInt, SInt)
 }
